@@ -236,6 +236,32 @@ func (c *Ctx) RuleRxDisjoint(allPairs bool) *Result {
 			}
 		}
 	}
+	if allPairs {
+		// thorough tier: the full pairwise product of every pattern constant of the
+		// repository's definitions package, as a summary (no verdict: patterns that
+		// are never alternatives of one classification may overlap)
+		var pats []*Pattern
+		for _, p := range c.Rx().all {
+			if strings.HasPrefix(p.Name, "regex.") {
+				pats = append(pats, p)
+			}
+		}
+		sort.Slice(pats, func(i, j int) bool { return pats[i].Name < pats[j].Name })
+		overlaps, pairs := 0, 0
+		var ex []string
+		for i := 0; i < len(pats); i++ {
+			for j := i + 1; j < len(pats); j++ {
+				pairs++
+				if r, err := rx.Intersects(searchLang(pats[i]), searchLang(pats[j]), dom); err == nil && r.Found {
+					overlaps++
+					if len(ex) < 12 {
+						ex = append(ex, fmt.Sprintf("%s/%s:%q", strings.TrimPrefix(pats[i].Name, "regex."), strings.TrimPrefix(pats[j].Name, "regex."), r.Witness))
+					}
+				}
+			}
+		}
+		res.note("full pairwise product of the %d pattern constants of package regex: %d pairs, %d overlap on some trimmed line (informational), e.g. %s", len(pats), pairs, overlaps, strings.Join(ex, "; "))
+	}
 	// ordered chains versus the unordered sets
 	for _, fn := range c.P.RepoFns {
 		for _, ch := range c.matchChains(fn) {
